@@ -193,6 +193,34 @@ def run(rep, tier):
             # the closure checks is_finite
             ok = ok and any(k.calls_named(r"::is_finite$") for k in prog.closures_of(g))
         rep.ob("R12.3", "validated-query|%s" % name, ok, "non-finite and wrong-dimension queries are rejected before search_inner", g.file + ":%d" % g.line)
+    # the f32 entry point hands the caller's query to the search as it is: reported distances are the metric between *that* query and
+    # the stored vectors; any conversion on the way (e.g. rounding it through bf16) changes every reported distance
+    g = prog.fn(H + "::search_f32")
+    si = g.calls_named(r"HnswIndex::search_inner$")
+    origins = [o for s_ in si for o in g.slice_back_op(s_.args[1], through=lambda ev: False)]
+    rep.ob("R12.3", "query-unconverted|search_f32", bool(si) and bool(origins) and all(o == ("arg", 2) for o in origins),
+           "the query given to search_inner is not the caller's slice itself but the result of %s" % sorted({(o[1].name if o[0] == "call" else o[0]) for o in origins if o != ("arg", 2)}),
+           si[0].where() if si else g.file)
+    # what a flush can write, a load accepts: cached edge distances are whatever the configured metric produced (InnerProduct is
+    # -dot, so negative for most edges); the loader may reject a cached distance for being non-finite, never for its sign or size
+    vl = prog.fns_matching(r"^anda_db_hnsw::hnsw::validate_loaded_node$|HnswIndex::validate_loaded_node$")
+    if not vl:
+        raise CheckerFault("anchor missing: validate_loaded_node")
+    bodies = [vl[0]] + prog.closures_of(vl[0])
+    fin = [e for b_ in bodies for e in b_.calls_named(r"::is_finite$")]
+    cmp_sites = []
+    for b_ in bodies:
+        for blk in b_.live_blocks():
+            for st in b_.stmts(blk):
+                if st[0] == "A" and st[2]["k"] == "bin" and st[2]["op"] in ("Lt", "Le", "Gt", "Ge"):
+                    tys = {b_.locals[core.op_place(o).l] for o in (st[2]["a"], st[2]["b"]) if core.op_place(o) is not None} | \
+                          {(core.op_const(o) or {}).get("ty") for o in (st[2]["a"], st[2]["b"]) if core.op_const(o) is not None}
+                    if tys & {"f32", "f64", "half::bfloat::bf16"}:
+                        cmp_sites.append("%s:%d" % (b_.file, st[3] if len(st) > 3 else b_.line))
+    rep.saw(vl[0], len(fin))
+    rep.ob("R12.3", "loader-accepts-every-metric|validate_loaded_node", bool(fin) and not cmp_sites,
+           "the loader compares a cached edge distance with a bound (sign / range test); distances are metric-dependent (InnerProduct "
+           "yields negative ones), only non-finite values may be refused", cmp_sites[0] if cmp_sites else vl[0].file + ":%d" % vl[0].line)
     sl = prog.fn(H + "::search_layer")
     rep.saw(sl, len(sl.events))
     vis = [e for e in sl.calls_named(r"HashSet::<T, S>::insert$|HashSet::<T, S, A>::insert$")]
